@@ -7,6 +7,7 @@ require (
 	github.com/dapr/kit v0.0.0
 	github.com/spiffe/go-spiffe/v2 v2.1.7
 	golang.org/x/crypto v0.24.0
+	k8s.io/utils v0.0.0-20230726121419-3b25d923346b
 )
 
 require (
@@ -17,7 +18,6 @@ require (
 	github.com/zeebo/errs v1.3.0 // indirect
 	golang.org/x/exp v0.0.0-20231006140011-7918f672742d // indirect
 	golang.org/x/sys v0.21.0 // indirect
-	k8s.io/utils v0.0.0-20230726121419-3b25d923346b // indirect
 )
 
 replace github.com/dapr/kit => /repo
